@@ -27,8 +27,16 @@ def draw_tab_world(prop: str, rng: random.Random) -> dict:
     return world
 
 
-def build(prop: str, rng: random.Random, seed: int, root: str):
+def build(prop: str, rng: random.Random, seed: int, root: str, force: dict | None = None):
     world = draw_tab_world(prop, rng)
+    if force:
+        # grid phase of C10: a given solver class on a given shipped problem
+        cls = force["cls"]
+        world["solver"] = P.draw_solver(rng, cls, 32, never_converge=rng.random() < 0.5, shuffle=False)
+        world["problem"] = P.draw_shipped_problem(rng, kind=force["kind"])
+        world["solver"]["kw"]["max_batch_size"] = rng.choice([3, 7, 16, 64, 1024])
+        if cls == "PER" and force["kind"] == "mirjalili":
+            world["solver"]["kw"]["period"] = 7
     Tmax = rng.randint(5, 16)
     if world["solver"]["cls"] == "PI":
         Tmax = rng.randint(3, 8)
